@@ -10,9 +10,11 @@ Formats == {"xml", "pb"}
 Kinds   == {"full", "scenario"}              \* write_to_file / write_scenario_to_file
 Modes   == {"always", "skip"}
 
-F(w, kind) == [fmt |-> w.fmt, digits |-> IF w.fmt = "xml" THEN w.d ELSE 0, copies |-> 1,
-               pp |-> IF kind = "full" THEN 1 ELSE 0]
-Key(w, kind) == <<w.fmt, IF w.fmt = "xml" THEN w.d ELSE 0, kind>>     \* identically constructed writers share a key
+(* nl: number of lanelets of the scenario AT THE TIME OF THE WRITE (the scenario the writer references is an input of  *)
+(* every write: it may be edited between two writes of one writer)                                                  *)
+F(w, kind, nl) == [fmt |-> w.fmt, digits |-> IF w.fmt = "xml" THEN w.d ELSE 0, copies |-> 1,
+                   pp |-> IF kind = "full" THEN 1 ELSE 0, nl |-> nl]
+Key(w, kind, nl) == <<w.fmt, IF w.fmt = "xml" THEN w.d ELSE 0, kind, nl>>   \* identically constructed writers share a key
 Skipped(files, path, mode) == mode = "skip" /\ path \in DOMAIN files
-NoFile == [fmt |-> "none", digits |-> 0, copies |-> 0, pp |-> 0]
+NoFile == [fmt |-> "none", digits |-> 0, copies |-> 0, pp |-> 0, nl |-> 0]
 ===================================================================================
